@@ -93,9 +93,10 @@ def run(ck):
                     else:
                         ck.undecided("C02.R1", inst, rho_site, "rho is not of the form A(cos, sin)(phi) and its parts are %s / %s" % (c1, c2))
                 # dependence (R3): rho depends on all of rbm_am.{W,U,b,c,d} and rbm_ph.{W,U,b,c}, not on rbm_ph.d
-                deps = p.value.term.syms() - {"v", "vp"}
                 it0 = p.interp
                 want = _param_names(ck, "rho-deps")
+                biases_ = {n_ for k_ in ("am", "ph") for r_, n_ in (want or {}).get(k_, {}).items() if r_ in ("b", "c", "d")}
+                deps = drop_bias_broadcast(p.value.term, biases_).syms() - {"v", "vp"}
                 if want is not None:
                     w_all = set(want["am"].values()) | {n for r, n in want["ph"].items() if r != "d"}
                     ck.check(deps == w_all, "C02.R3", inst + ":deps", rho_site,
@@ -285,7 +286,9 @@ def run(ck):
 
             for p in returning(_ev(ck, thpi), inst):
                 g, Ra, Rp = p.value
-                comps = T.as_stack0(g.term) if g.term is not None else None
+                bias_ = {t_.single_atom().name for R_ in (Ra, Rp) for r_, t_ in R_.items() if r_ in ("b", "c", "d") and isinstance(t_.single_atom(), T.Sym)}
+                gt_ = drop_bias_broadcast(g.term, bias_) if g.term is not None else None
+                comps = T.as_stack0(gt_) if gt_ is not None else None
                 if comps is None or len(comps) != 2:
                     ck.undecided("C02.R7", inst, pi_site, "pi is not a (re, im) pair")
                     continue
@@ -297,8 +300,8 @@ def run(ck):
                     col = lambda t: T.app("unsq", t, -3, 3)  # noqa: E731
                 else:
                     row = col = lambda t: t  # noqa: E731
-                x = Fraction(1, 2) * (row(ma) + col(mpa))
-                y = Fraction(1, 2) * (row(mp_) - col(mpp))
+                x = drop_bias_broadcast(Fraction(1, 2) * (row(ma) + col(mpa)), bias_)
+                y = drop_bias_broadcast(Fraction(1, 2) * (row(mp_) - col(mpp)), bias_)
                 ex = T.exp(x)
                 q_want = T.ONE + 2 * ex * T.cos(y) + T.exp(2 * x)
                 a_want, b_want = ex * T.sin(y), T.ONE + ex * T.cos(y)
